@@ -1,4 +1,5 @@
 import MoreExec.Props.C06
+#print axioms MoreExec.Retry.C06_source_protocol
 #print axioms MoreExec.Retry.C06_retry_stops
 #print axioms MoreExec.Retry.C06_terminal_is_forever
 #print axioms MoreExec.Retry.C06_no_submit_when_done
